@@ -23,6 +23,23 @@ type fanArtifact struct {
 }
 
 func fanGraph(r *common.Rand) *dag.Graph {
+	for {
+		g := fanGraphOnce(r)
+		seen := map[string]bool{}
+		dup := false
+		for _, n := range g.Nodes {
+			if seen[n.Desc.Digest.String()] {
+				dup = true
+			}
+			seen[n.Desc.Digest.String()] = true
+		}
+		if !dup {
+			return g
+		}
+	}
+}
+
+func fanGraphOnce(r *common.Rand) *dag.Graph {
 	var es []dag.Encoded
 	var descs []ocispec.Descriptor
 	add := func(e dag.Encoded) int {
@@ -42,6 +59,25 @@ func fanGraph(r *common.Rand) *dag.Graph {
 		}
 		return nil
 	}
+	// embedded descriptors (index entries, subject fields) may carry their own annotations /
+	// artifactType, independent of the manifest they point to (image-spec: BuildKit attestation
+	// entries carry vnd.docker.reference.type); a reopened OCI layout indexes nested nodes with them
+	entry := func(i int) ocispec.Descriptor {
+		d := descs[i]
+		if !r.Chance(2, 5) {
+			return d
+		}
+		if r.Chance(2, 3) {
+			d.Annotations = map[string]string{"verif.key": common.Pick(r, []string{"alpha", "beta", "gamma", "entry"})}
+			if r.Chance(1, 3) {
+				d.Annotations = map[string]string{"vnd.docker.reference.type": "attestation-manifest"}
+			}
+		}
+		if r.Chance(1, 2) {
+			d.ArtifactType = common.Pick(r, []string{"application/vnd.verif.sbom", "application/vnd.verif.entry", "application/vnd.verif.sig"})
+		}
+		return d
+	}
 	image := func(subject int) int {
 		i := len(es)
 		cfgMT := common.Pick(r, []string{ocispec.MediaTypeImageConfig, "application/vnd.verif.config.v1+json", "application/vnd.verif.sig"})
@@ -50,7 +86,7 @@ func fanGraph(r *common.Rand) *dag.Graph {
 		m.SchemaVersion = 2
 		e := dag.Encoded{Kind: dag.KImage, MediaType: m.MediaType, Subject: subject}
 		if subject >= 0 {
-			d := descs[subject]
+			d := entry(subject)
 			m.Subject = &d
 			e.Succ = append(e.Succ, subject)
 		}
@@ -86,14 +122,14 @@ func fanGraph(r *common.Rand) *dag.Graph {
 		ix.SchemaVersion = 2
 		e := dag.Encoded{Kind: dag.KIndex, MediaType: ix.MediaType, Subject: subject}
 		if subject >= 0 {
-			d := descs[subject]
+			d := entry(subject)
 			ix.Subject = &d
 			e.Succ = append(e.Succ, subject)
 		}
 		k := 1 + r.Intn(2)
 		for j := 0; j < k; j++ {
 			m := common.Pick(r, manifests)
-			ix.Manifests = append(ix.Manifests, descs[m])
+			ix.Manifests = append(ix.Manifests, entry(m))
 			e.Succ = append(e.Succ, m)
 		}
 		if r.Chance(1, 3) {
@@ -102,9 +138,10 @@ func fanGraph(r *common.Rand) *dag.Graph {
 		}
 		ix.Annotations = annotations()
 		if ix.Annotations == nil {
-			// keep index bytes unique
-			ix.Annotations = map[string]string{"verif.n": fmt.Sprintf("%d-%x", len(es), r.U64())}
+			ix.Annotations = map[string]string{}
 		}
+		// keep index bytes unique
+		ix.Annotations["verif.n"] = fmt.Sprintf("%d-%x", len(es), r.U64())
 		e.Annotations = ix.Annotations
 		e.Bytes, _ = json.Marshal(ix)
 		return add(e)
